@@ -63,7 +63,7 @@ def items(tier, seed):
                 continue
             for lo in range(0, len(P), step):
                 out.append({"src": name, "sigma": sig, "lo": lo, "hi": min(len(P), lo + step), "tier": tier, "seed": seed})
-    for rname in ("conrot_reaction", "disrot_reaction", "fcb", "phosgenation"):
+    for rname in ("conrot_reaction", "disrot_reaction", "fcb", "phosgenation", "sn2"):
         out.append({"reaction": rname, "tier": tier, "seed": seed})
     out.sort(key=lambda it: (len(sources(tier)[it["src"]][0]) if "src" in it else 99, it.get("lo", 0)))
     return out
@@ -205,6 +205,10 @@ def run_item(item):
 
 def _reaction_sources(name):
     F = G.repo_xyz()
+    if name == "sn2":
+        r, p, ts = G.sn2_triple()
+        assert G.robustly_nonplanar(ts[1][1:])
+        return r, p, ts
     if name in ("conrot_reaction", "disrot_reaction"):
         r = F.get(f"{name}/(2S,3S)-1,1-Dichlor-2,3-dimethylcyclopropane.xyz")
         p = F.get(f"{name}/(Z)-(4S)-3,4-Dichlor-2-pentene.xyz")
@@ -253,7 +257,7 @@ def _reaction(item, out):
     m0 = U.from_real(g0)
     Ms = [(G.generic_rotation(seed, k), G.translation(seed, k)) for k in range(4)] + [(C, np.zeros(3)) for C in G.cube_rotations()[1:6]]
     fam = perm_family(n, tier)
-    fam = fam if len(fam) <= 60 else fam[:60]
+    fam = fam if (len(fam) <= 60 or item["reaction"] == "sn2") else fam[:60]
     for pi in fam:
         for (a, b, c) in ((0, 1, 2), (3, 3, 3), (4, 0, 5), (1, 6, 0)):
             try:
